@@ -110,7 +110,7 @@ def convert_summary(ctx, args, callee):
     """summary of util::glob::convert_{glob,like}_to_pattern: a tagged pattern text (the translators themselves are
     decided by Engine C under C12)"""
     from mirsym.models_std import as_str, lift_str
-    kind = 'GLOB' if 'glob' in callee else 'LIKE'
+    kind = 'GLOB' if 'convert_glob' in callee else 'LIKE'
     return lift_str(ctx, lambda a: '%s(%s)' % (kind, a), as_str(ctx, args[0]))
 
 
